@@ -323,9 +323,10 @@ def space(tier, seed):
             if tier == 'thorough' or bin(sub).count('1') == 1 or sub == h:
                 gs.append({'n': 3, 'loops': False, 'h': h, 'inst': sub})
             sub = (sub - 1) & h
-    # decoy relation types in some databases (a process-wide cache of lookup rowids would go stale)
-    for h in range(1 << 6):
-        gs.append({'n': 3, 'loops': False, 'h': h, 'decoy': True})
+    # decoy relation types: these graphs come first, so that the first database a worker may see gives
+    # 'hypernym' another lookup rowid than all the other databases do (types sorting before it are
+    # inserted first) - a process-wide cache of lookup rowids would go stale
+    gs = [{'n': 3, 'loops': False, 'h': h, 'decoy': True} for h in range(1, 1 << 6)] + gs
     # hyponym declaration modes (leaves read declared hyponyms)
     for mode in ('none', 'skew'):
         for n in (2, 3):
